@@ -364,6 +364,12 @@ func (c *Ctx) inject(site, n int, f *Fault) error {
 		c.late = append(c.late, e)
 		c.Injected = append(c.Injected, Injected{Seq: len(c.Events) - 1, Site: site, N: n, Kind: f.Kind, Err: e, Msg: e.base})
 		return e
+	case "errjoin":
+		// several things went wrong in one block: one error value made of two
+		// (errors.Join); the list element wraps that value as it is
+		e := errors.Join(errors.New(fmt.Sprintf("J%d.%d", site, n)), errors.New(fmt.Sprintf("K%d.%d", site, n)))
+		c.Injected = append(c.Injected, Injected{Seq: len(c.Events) - 1, Site: site, N: n, Kind: f.Kind, Err: e, Msg: e.Error()})
+		return e
 	case "errdup":
 		e := errors.New("DUP")
 		c.Injected = append(c.Injected, Injected{Seq: len(c.Events) - 1, Site: site, N: n, Kind: f.Kind, Err: e, Msg: "DUP"})
